@@ -30,7 +30,7 @@ LEVEL_TEXT = ("Exploration: thousands of (configuration x request multiset) comp
 LEVEL_NOTE = "Trusts ref_request.py; uuid/dtclient are the library's own (TRNUIDs only checked for distinctness, DTCLIENT for plausibility)."
 DESIGN_REF = "DESIGN.md §3 C06"
 MIN_COUNTERS = {"quick": {"compositions": 3000, "requests_compared": 9000, "versions_seen": 11, "refusals_2xx_unclosed": 50},
-                "thorough": {"compositions": 200000, "requests_compared": 500000, "versions_seen": 11, "refusals_2xx_unclosed": 500}}
+                "thorough": {"compositions": 160000, "requests_compared": 400000, "versions_seen": 11, "refusals_2xx_unclosed": 300}}
 
 VERSIONS = [102, 103, 151, 160, 200, 201, 202, 203, 210, 211, 220]
 ACCTTYPES = ["CHECKING", "SAVINGS", "MONEYMRKT", "CREDITLINE", "CD"]
